@@ -55,6 +55,11 @@ impl Driver for Battery {
                 self.transcript.push("handle-dead".into());
                 return None;
             }
+            if self.transcript.is_empty() {
+                // what the session itself says it would accept (the gate an application asks
+                // before it publishes), before anything is probed
+                self.transcript.push(format!("can_publish = {:?}", v.can_publish));
+            }
             match self.phase {
                 // bisect the largest QoS 1 payload (acks immediate, so each probe is freed again)
                 0 | 8 => {
@@ -76,6 +81,8 @@ impl Driver for Battery {
                     }
                     if self.hi - self.lo <= 1 {
                         self.transcript.push(format!("max q{} payload = {}", qos, self.lo));
+                        // (the largest packet the arena takes has just been acknowledged)
+                        self.transcript.push(format!("can_publish after the largest packet was acknowledged (held {}) = {:?}", v.snap.tx.retained.len() + v.snap.tx.release.len(), v.can_publish));
                         self.phase += 1;
                         continue;
                     }
@@ -127,6 +134,7 @@ impl Driver for Battery {
                 7 => {
                     // everything must be free again before the QoS 0 bisection
                     self.transcript.push(format!("quiescent-after-release = {}", v.snap.tx.retained.is_empty() && v.snap.tx.release.is_empty()));
+                    self.transcript.push(format!("can_publish after release (held {}) = {:?}", v.snap.tx.retained.len() + v.snap.tx.release.len(), v.can_publish));
                     self.phase = 8;
                     self.awaiting = false;
                 }
@@ -268,6 +276,14 @@ impl Check for C17 {
             let mut fresh = Chain { a: Script::new(vec![Step::Connect(benign_connect(false))]), b: Battery::new(cfg.tx), in_b: false, b_from: None };
             let (flog, fworld) = run_case(&cfg, seed, &mut fresh, 2000);
             out.count("batteries_compared", 1);
+            // absolute, for either session: with nothing held and the connection up, the
+            // session says it can take a publish of every QoS (arenas here are 64 bytes and more)
+            for (who, tr) in [("aged", &aged), ("brand-new", &fresh.b.transcript)] {
+                for l in tr.iter().filter(|l| l.starts_with("can_publish after") && l.contains("(held 0)") && l.contains("false")) {
+                    out.violations.push(viol("C17", "C17/leak/cannot-publish-on-an-empty-session", format!("{} session, transmit arena {} bytes, nothing held, connection up: `{}`", who, cfg.tx, l)));
+                    break;
+                }
+            }
             if aged != fresh.b.transcript {
                 let i = aged.iter().zip(&fresh.b.transcript).position(|(a, b)| a != b).unwrap_or(aged.len().min(fresh.b.transcript.len()));
                 let what = aged.get(i).map(|s| s.split(' ').next().unwrap_or("?").to_string()).unwrap_or_else(|| "length".into());
